@@ -211,16 +211,14 @@ def run(ctx, chk):
 
     R4 = chk.rule("R-VER", "set_version stores create_word_from_version(major, minor); the loader reads it back with "
                   "create_version_from_word; the two functions are inverse on bytes 1 and 2 of the word (0x00MMmm00)")
-    f1 = ctx.rspirv.fn("rspirv::utils::version", "create_word_from_version")
-    f2 = ctx.rspirv.fn("rspirv::utils::version", "create_version_from_word")
-    a, b = f1["sig"]["params"][0][0], f1["sig"]["params"][1][0]
-    t1 = [show_stmt(s) for s in f1["body"][1]]
-    w = f2["sig"]["params"][0][0]
-    t2 = [show_stmt(s) for s in f2["body"][1]]
-    ok1 = len(t1) == 1 and t1[0].endswith("::from_le_bytes([0, %s, %s, 0])" % (b, a))
-    ok2 = len(t2) == 2 and t2[0] == "let bytes = %s.to_le_bytes();" % w and t2[1] == "(bytes[2], bytes[1])"
-    chk.check(R4, ok1 and ok2, "version-functions-inverse", "create_word_from_version: %s; create_version_from_word: %s" % (t1, t2),
-              raw.where("create_word_from_version", None, "version.rs"), sample={"pack": t1, "unpack": t2})
+    from . import lookx, asmx
+    try:
+        wv, vv = lookx.version_functions(ctx)
+        good = wv == asmx.w32([0, ("byte", "minor"), ("byte", "major"), 0]) and vv == ("tuple", [("byte", "b2"), ("byte", "b1")])
+        chk.check(R4, good, "version-functions-inverse", "create_word_from_version(major, minor) = %s; create_version_from_word(b0..b3) = %s" % (wv, vv),
+                  raw.where("create_word_from_version", None, "version.rs"), sample={"pack": str(wv), "unpack": str(vv)})
+    except Anchor as ex:
+        chk.bad(R4, "version-functions-inverse", "not analysable: %s" % ex, raw.where("create_word_from_version", None, "version.rs"))
     sv = ctx.rspirv.fn("rspirv::dr::constructs", "set_version", "ModuleHeader", False)
     chk.check(R4, [show_stmt(s) for s in sv["body"][1]] == ["self.version = version::create_word_from_version(major, minor);"],
               "ModuleHeader::set_version", "is %s" % [show_stmt(s) for s in sv["body"][1]], raw.where("set_version", "ModuleHeader"))
